@@ -156,13 +156,18 @@ def build(spec, pres=None, interp=True, weights_transform=None, dtype=None, requ
         for n in pres['factor_order']:
             t = spec['terms'][n]
             shape = [dom_size(spec['domains'][x]) for x in t['type']]
-            w = torch.tensor(t['weights'], dtype=torch.float64).reshape(shape)
-            w = _permute_weights(w, t['type'], pres['dom_perm'])
-            if weights_transform is not None:
-                w = weights_transform(n, w)
-            if w.dtype.is_floating_point:
-                w = w.to(dt)
-            w = w.clone()
+            if t.get('pattern') is not None and weights_transform is None and not any(x in pres['dom_perm'] for x in t['type']):
+                from .ref.tensor_ref import mk_patterned
+                w = mk_patterned(t['pattern'], dt)
+                B.patterned = getattr(B, 'patterned', 0) + 1
+            else:
+                w = torch.tensor(t['weights'], dtype=torch.float64).reshape(shape)
+                w = _permute_weights(w, t['type'], pres['dom_perm'])
+                if weights_transform is not None:
+                    w = weights_transform(n, w)
+                if w.dtype.is_floating_point:
+                    w = w.to(dt)
+                w = w.clone()
             if requires_grad:
                 w.requires_grad_()
             B.weights[n] = w
